@@ -5,7 +5,7 @@ from ..harness import scn, gen, obs as O, pyeval
 from . import base_scn, compose
 
 pid = 'C09'
-gen_modules = ['tr_state', 'tr_validators', 'tr_has_patcher', 'tr_contracts', 'tr_decorators', 'tr_pin_contracts', 'tr_rest_validators', 'tr_rest_patcher', 'tr_rest_state', 'tr_rest_contractsconst']
+gen_modules = ['tr_state', 'tr_validators', 'tr_has_patcher', 'tr_contracts', 'tr_decorators', 'tr_pin_contracts', 'tr_rest_validators', 'tr_rest_patcher', 'tr_rest_state', 'tr_rest_contractsconst', 'tr_rest_decorators']
 model_targets = ['Sem/ScnObj.v']
 hand_modelled = ['coq/Sem/ObjModel.v: attach / attach_has / _ensure_wrapped / update_wrapper / chain / foreign decorators on a heap of function '
                  'objects (hand-written; the source text of these functions is pinned by tools/py2coq/tr_objmodel.py)']
@@ -149,5 +149,58 @@ def run(ctx, fr, model_available=True):
             # the introspection answers (the Q lines) are C14's subject: composition is compared on the runtime observations only
             if om.split('|Q ')[0] != oi.split('|Q ')[0]: fr.disagreements.append({'scenario': sc, 'impl': oi, 'model': om})
     fr.rule = RULE; fr.samples.append({'scenario': scs[-1], 'impl': im[-1]}); fr.distribution = dict(dist, scenarios=len(scs))
+ALIAS_SRC = r"""
+import deal, itertools
+__name__ = "c09_alias_probe"
+def probe():
+    # the aliases deal.safe / deal.pure are contracts like the others: every order and grouping of {raises(ValueError), safe} (and pure, with a
+    # precondition in between) enforces both
+    bad = []
+    def body(x):
+        if x < 0: raise ValueError("neg")
+        return 1
+    def fresh(): return (lambda x: body(x))
+    variants = {
+        "raises above safe": lambda: deal.raises(ValueError)(deal.safe(fresh())),
+        "safe above raises": lambda: deal.safe(deal.raises(ValueError)(fresh())),
+        "safe() above raises": lambda: deal.safe()(deal.raises(ValueError)(fresh())),
+        "pure above raises": lambda: deal.pure(deal.raises(ValueError)(fresh())),
+        "raises above pure": lambda: deal.raises(ValueError)(deal.pure(fresh())),
+        "chain(raises, safe)": lambda: deal.chain(deal.raises(ValueError), deal.safe)(fresh()),
+        "chain(safe, raises)": lambda: deal.chain(deal.safe, deal.raises(ValueError))(fresh()),
+        "chain(raises, pure)": lambda: deal.chain(deal.raises(ValueError), deal.pure)(fresh()),
+        "safe above pre above raises": lambda: deal.safe(deal.pre(lambda x: True)(deal.raises(ValueError)(fresh()))),
+        "raises above pre above safe": lambda: deal.raises(ValueError)(deal.pre(lambda x: True)(deal.safe(fresh()))),
+        "safe above safe": lambda: deal.safe(deal.safe(fresh())),
+    }
+    for name, mk in variants.items():
+        f = mk()
+        out = []
+        for x in (1, -1):
+            try: out.append(("returned", f(x)))
+            except deal.RaisesContractError: out.append("RaisesContractError")
+            except BaseException as e: out.append(("raised", type(e).__name__))
+        if out != [("returned", 1), "RaisesContractError"]: bad.append([name, out])
+    return bad
+"""
+
+
+def alias_probe(ctx, fr):
+    from ..harness import impl
+    r = impl.run_impl('pyexec.py', {'src': ALIAS_SRC, 'calls': [['probe', []]]})[0]
+    fr.evaluations += 11; fr.add_nontrivial({'alias_probe': 1})
+    fr.samples.append({'family': 'aliases safe / pure in every order and grouping', 'deviations': r})
+    if isinstance(r, dict): fr.errors.append('C09 alias probe failed: ' + str(r)[:400])
+    elif r:
+        fr.violations.append({'scenario': {'family': 'aliases', 'case': r[0]}, 'impl': r, 'signature': None,
+                              'what': f'{r[0][0]}: outcomes for f(1), f(-1) are {r[0][1]}; with raises(ValueError) and safe both applied f(-1) must be a raises violation in every order and grouping'})
+
+
+_run_compose = run
+def run(ctx, fr, model_available=True):
+    _run_compose(ctx, fr, model_available)
+    alias_probe(ctx, fr)
+
+
 def search(ctx, fr, model_available=True): return base_scn.search(_me, ctx, fr, model_available)
 classify = base_scn.classify
